@@ -40,6 +40,7 @@ type Contract struct {
 	External bool   // from /verif/external
 	NoPanic  bool   // generate #nopanic obligations
 	MayPanic string // documented panics are allowed (reason)
+	NoMerge  bool   // do not if-convert conditional blocks (keeps quantified proofs in their path-split shape)
 	Pure     bool   // callee does not modify any heap component
 	File     string
 	Line     int
@@ -275,6 +276,10 @@ func (cs *ContractSet) ParseFile(path string, pkg string, external bool) error {
 			continue
 		case body == "nopanic":
 			cur.NoPanic = true
+			last = nil
+			continue
+		case body == "nomerge":
+			cur.NoMerge = true
 			last = nil
 			continue
 		case body == "pure":
